@@ -670,10 +670,9 @@ impl Tokenizer {
                     options.overlap
                 };
 
-                for (chunk_idx, (tokens_chunk, offsets_chunk)) in tokens
+                for (tokens_chunk, offsets_chunk) in tokens
                     .chunks_with_overlap(max_tokens_per_chunk, overlap)
                     .zip(offsets.chunks_with_overlap(max_tokens_per_chunk, overlap))
-                    .enumerate()
                 {
                     let mut tokens = Vec::new();
                     let mut offsets = Vec::new();
@@ -691,12 +690,16 @@ impl Tokenizer {
                     }
 
                     // The offset for the final token is the offset of the first
-                    // token in the next chunk, or the input length if this
-                    // is the final chunk.
-                    let chunk_start = chunk_idx * max_tokens_per_chunk;
+                    // token after this chunk, or the input length if this
+                    // is the final chunk. Chunks can overlap, so the position
+                    // of the chunk is taken from the slice itself.
+                    let chunk_end = all_offsets
+                        .subslice_offsets(offsets_chunk)
+                        .map(|range| range.end)
+                        .unwrap_or(all_offsets.len());
                     offsets.push(
                         all_offsets
-                            .get(chunk_start + offsets_chunk.len())
+                            .get(chunk_end)
                             .copied()
                             .unwrap_or(item.len()),
                     );
@@ -731,10 +734,9 @@ impl Tokenizer {
                     options.overlap
                 };
 
-                for (chunk_idx, (tokens_chunk, offsets_chunk)) in second_tokens
+                for (tokens_chunk, offsets_chunk) in second_tokens
                     .chunks_with_overlap(second_len, overlap)
                     .zip(second_offsets.chunks_with_overlap(second_len, overlap))
-                    .enumerate()
                 {
                     let mut tokens = Vec::new();
                     let mut offsets = Vec::new();
@@ -765,10 +767,13 @@ impl Tokenizer {
                     if let Some(sep_token) = sep_token {
                         tokens.push(sep_token);
                     }
-                    let chunk_start = chunk_idx * second_len;
+                    let chunk_end = second_offsets
+                        .subslice_offsets(offsets_chunk)
+                        .map(|range| range.end)
+                        .unwrap_or(second_offsets.len());
                     offsets.push(
                         second_offsets
-                            .get(chunk_start + offsets_chunk.len())
+                            .get(chunk_end)
                             .copied()
                             .unwrap_or(first.len() + second.len()),
                     );
